@@ -177,7 +177,7 @@ func runC07(c *Ctx) {
 	defer runC07EscapedRequestLineKept(c)
 	p := c.P
 	// clause shared with C11: binding a repeated well-known-type parameter must not panic
-	defer c.ImportRules("C11", "C11.12")
+	defer c.ImportRules("C11", "C11.12", "C11.16")
 	// clause shared with C19: the query parameters applied are the client's (parsed before the URL is rewritten)
 	defer c.ImportRules("C19", "C19.4")
 
